@@ -372,7 +372,7 @@ theorem prune_steps_conform_to_table (hc : Bool) (files : List File) (r : PruneR
     conforms ⟨r.appendOnly, files, hc⟩ ⟨.prune, (pruneRepository r).1⟩ = true ∧
     ((pruneRepository r).2 = some .appendOnly ↔ run hc r.appendOnly .prune = .refused .appendOnly) := by
   cases hao : r.appendOnly
-    constructor
+  · constructor
     · simp only [conforms, run, pruneRepository, hao, Bool.false_eq_true, if_false]
       split
       · cases r.instantDelete <;> simp [packRemovals, dataWrites, ConcreteOp.kind]
